@@ -285,6 +285,15 @@ def __parse_switch_binary(
         )
 
 
+def is_macro_switch(datapack: DataPack) -> bool:
+    """
+    Whether switch-case is lowered to a macro dispatch (otherwise a binary search tree)
+    """
+    return (
+        datapack.version >= PackVersionFeature.VANILLA_MACRO and not Header().force_bst
+    )
+
+
 def parse_switch(
     scoreboard_player: ScoreboardPlayer,
     func_contents: list[list[str]],
@@ -310,7 +319,7 @@ def parse_switch(
     if case_numbers is None:
         case_numbers = [*range(1, len(func_contents) + 1)]
     func_count = datapack.get_count(name)
-    if datapack.version >= PackVersionFeature.VANILLA_MACRO and not Header().force_bst:
+    if is_macro_switch(datapack):
         has_default = "default" in case_numbers
         for case_body, case_label in zip(func_contents, case_numbers):
             if has_default and case_label != "default":
@@ -454,6 +463,12 @@ def switch(
                     tokenizer,
                     suggestion=f"Expected case number {expected_case}",
                 )
+                if not is_macro_switch(datapack):
+                    raise JMCSyntaxException(
+                        f"Expected case number {expected_case} (binary search switch requires consecutive case numbers)",
+                        tokens[1],
+                        tokenizer,
+                    )
             if len(tokens) < 3:
                 raise JMCSyntaxException(
                     "Expected colon (:)", tokens[1], tokenizer, col_length=True
@@ -480,6 +495,12 @@ def switch(
             datapack.version.require(
                 PackVersionFeature.VANILLA_MACRO, tokens[1], tokenizer
             )
+            if not is_macro_switch(datapack):
+                raise JMCSyntaxException(
+                    "'default' is not supported by binary search switch",
+                    tokens[0],
+                    tokenizer,
+                )
             cases_content.append(current_case_content)
             current_case_content = []
             case_numbers.append("default")
